@@ -40,7 +40,9 @@
      S8 IndexDurable   after Writer.Close / DB.Close / a GC pass returned, the index file
                        decodes to the in-memory pointer list; a DB reopened on the same FS
                        finds the same pointers, the same counter, and exactly the files
-                       below the nominal size in its unopened set.
+                       below the nominal size in its unopened set.  (The index file is not
+                       a variable here: S8's index part is judged by the harness on the
+                       real files only; the reopen part is Close's fst' = Resting.)
 
    Code <-> action
      DB.OpenWriter -> fc.acquireWriter     OpenWriter(s)      (returns / blocks on fc.release)
